@@ -143,6 +143,16 @@ func registerIntrinsics(ip *Interp) {
 		}
 		return ip.intC(int64(n))
 	}
+	// three-way comparison of strings / byte slices (assembly in the runtime)
+	cmp3 := func(ip *Interp, fr *frame, a []Value) Value {
+		x, y := strOf(sliceBytes(a[0])), strOf(sliceBytes(a[1]))
+		m1 := ip.ctx.BV(0xFFFFFFFFFFFFFFFF, 64)
+		return ip.ctx.Ite(ip.strEq(x, y), ip.ctx.BV(0, 64), ip.ctx.Ite(ip.strLess(x, y), m1, ip.ctx.BV(1, 64)))
+	}
+	ip.reg("internal/bytealg.CompareString", cmp3)
+	ip.reg("internal/bytealg.Compare", cmp3)
+	ip.reg("strings.Compare", cmp3)
+	ip.reg("bytes.Compare", cmp3)
 	ip.reg("internal/bytealg.IndexByteString", idxByte)
 	ip.reg("internal/bytealg.IndexByte", idxByte)
 	ip.reg("internal/bytealg.IndexString", idx)
